@@ -250,6 +250,7 @@ class Wire:
     def __init__(self, transport, asock, conn):
         self.transport, self.asock, self.conn = transport, asock, conn
         self.rx = b""
+        self.out = b""                # accessory bytes not yet accepted by its (non-blocking) socket
         self.stalled = False          # the accessory is not reading
         self.peer_saw_close = False
         self.max_buffered = 0
@@ -270,15 +271,29 @@ class Wire:
                 self.rx += d
         return self.rx
 
+    def _flush(self):
+        while self.out:
+            try:
+                n = self.asock.send(self.out)
+            except (BlockingIOError, InterruptedError):
+                return
+            except OSError:
+                self.out = b""
+                return
+            self.out = self.out[n:]
+
     def deliver(self, data):
-        try:
-            self.asock.sendall(data)
-            return True
-        except OSError:
-            return False
+        self.out += data
+        self._flush()
+        return True
 
     async def settle(self):
         for _ in range(4):
+            await asyncio.sleep(0)
+        for _ in range(400):                 # a read larger than the socket buffer goes out in pieces
+            if not self.out:
+                break
+            self._flush()
             await asyncio.sleep(0)
         try:
             self.max_buffered = max(self.max_buffered, self.transport.get_write_buffer_size())
@@ -745,6 +760,20 @@ def gen_recv(tier, r):
         frames = [rbytes(r, n), rbytes(r, 1)]
         e = 2 + n + 16
         add(frames, sorted({1, 2, 3, e - 17, e - 16, e - 15, e - 1, e, e + 1, e + 2}), style="edge")
+    # ONE network read carrying far more than a maximal frame (asyncio reads up to 256 KiB per recv: a large /accessories
+    # answer, a burst that piled up): 64 KiB .. 256 KiB of valid frames in a single read, or next to a small one
+    for total, shape in ([(70000, "one"), (131072, "small+big"), (262144, "one")] if tier == "quick" else
+                         [(65553, "one"), (65554, "one"), (70000, "one"), (70000, "big+small"), (100000, "small+big"),
+                          (131072, "one"), (200000, "halves"), (262144, "one"), (262144, "small+big")]):
+        frames, got = [], 0
+        while got < total:
+            n = min(r.choice([1024, 1024, 1024, 1000, 517]), total - got - 18) if total - got > 18 + 1 else 1
+            n = max(n, 1)
+            frames.append(rbytes(r, n))
+            got += 2 + n + 16
+        size = sum(2 + len(f) + 16 for f in frames)
+        cuts = {"one": [], "small+big": [r.randrange(1, 2000)], "big+small": [size - r.randrange(1, 2000)], "halves": [size // 2]}[shape]
+        add(frames, cuts, style="big-read")
     # counter exhaustion on the receive side
     for start in (CTR_MAX - 2, CTR_MAX - 1, CTR_MAX):
         add([b"a", b"bc", b"def"], [5], ctr=start, style="ctr-limit")
@@ -1029,6 +1058,13 @@ def gen_session(tier, r):
                     k += 1
             c["style"] = "ctr-limit"
             cases.append(c)
+    # a burst that piled up: ~70 .. 200 KB of events (and one answer) delivered in ONE read, a request before it
+    for nev in ([30, 60] if quick else [28, 30, 45, 60, 80]):
+        msgs = [("E", rbytes(r, 2500)) for _ in range(nev)]
+        msgs.insert(nev // 2, ("A", 0, rbytes(r, 1500)))
+        c = build_session(r, msgs, [rbytes(r, 100)], [1024] * 400, [], send_at=[0])
+        c["style"] = "big-read"
+        cases.append(c)
     # random duplex sessions
     for _ in range(500 if quick else 8000):
         nreq = r.choice([0, 1, 1, 2, 3])
@@ -1313,6 +1349,12 @@ def gen_wire(tier, r):
             c["reqs"].append(rbytes(r, r.choice([1, 100, 1025])))
             c["ops"].append(("S", len(c["reqs"]) - 1))
         cases.append(c)
+    for nev in ([40] if quick else [28, 40, 60]):
+        msgs = [("E", rbytes(r, 2500)) for _ in range(nev)]
+        msgs.append(("A", 0, rbytes(r, 1500)))
+        c = build_session(r, msgs, [rbytes(r, 100)], [1024] * 400, [], send_at=[0])
+        c["style"] = "wire-big-read"
+        cases.append(c)
     # real back-pressure: the accessory stops reading while the controller keeps issuing large requests, until the
     # transport's write buffer is over its high-water mark (pause_writing() called by the event loop), then reads again
     for _ in range(10 if quick else 60):
@@ -1520,6 +1562,13 @@ def vm_sample(send_lines, send_model, pipe_lines, pipe_model, recv_lines, recv_c
     return picks[:30]
 
 
+def read_bucket(n):
+    for lim, name in ((128, "<=128"), (1024, "<=1K"), (4096, "<=4K"), (16384, "<=16K"), (65553, "<=65553 (one max frame)")):
+        if n <= lim:
+            return name
+    return "<=256K" if n <= 262144 else ">256K"
+
+
 # ---------------------------------------------------------------- run
 def run(ctx):
     tier, seed = ctx["tier"], ctx["seed"]
@@ -1692,6 +1741,7 @@ def run(ctx):
                  sample=dict(stream="session", style=c["style"], script=rep["script"][:14], frames=rep["frame_sizes"][:8],
                              events=len(final["events"]), ended=final["end"]) if ci % 97 == 0 else None,
                  sess_style=c["style"].split("/")[0], sess_end=final["end"], sess_requests=len(c["reqs"]),
+                 sess_largest_read=read_bucket(max([len(op[1]) for op in c["ops"] if op[0] == "R"] + [0])),
                  sess_send_mid_message=any(t["tok"] == "w" and any(a < t["plain"] < b for _, _, a, b in c["spans"]) for t in mexp))
 
     # the same scripts on the REAL asyncio transport (socketpair), and on Link: the emulation must agree with the real thing
@@ -1711,6 +1761,7 @@ def run(ctx):
                  sample=dict(stream="wire", style=c["style"], script=rep["script"][:14], ended=final["end"],
                              peer_saw_close=final["peer_saw_close"], max_write_buffer=final["max_buffered"]) if ci % 23 == 0 else None,
                  wire_style=c["style"], wire_end=final["end"], wire_peer_saw_close=final["peer_saw_close"],
+                 wire_largest_read=read_bucket(max([len(op[1]) for op in c["ops"] if op[0] == "R"] + [0])),
                  wire_transport_paused_writing=final["max_buffered"] > 65536)
 
     # ---- recv
@@ -1732,6 +1783,7 @@ def run(ctx):
                  sample=dict(stream="recv", frame_sizes=[len(p) for p in c["frames"]], corruption=c["mut"],
                              read_sizes=[len(s) for s in c["segs"]][:10], result=[t[:24] for t in toks][:6]) if ci % 3001 == 0 else None,
                  recv_style=c["style"], recv_corruption=c["mut"], recv_reads=min(len(c["segs"]), 50),
+                 recv_largest_read=read_bucket(max([len(x) for x in c["segs"]] + [0])),
                  recv_end=("dead" if toks and toks[-1][0] == "D" else "live"), recv_session_end=info["end"])
 
     # ---- event
